@@ -326,3 +326,53 @@ package grpc
 //@   ensures implies(jrp == nil, p == nil && err == nil)
 //@   ensures implies(p != nil, err == nil && Z(p.MaxAttempts) == imin(Z(jrp.MaxAttempts), Z(old(maxAttempts))) && jrp.MaxAttempts > 1)
 //@   ensures implies(jrp != nil && jrp.MaxAttempts <= 1, p == nil && err != nil)
+
+// ---- C30: the channel's connectivity state and its waiters ---------------------------------------------
+//
+// updateState: SHUTDOWN is final and an unchanged state is a no-op (nothing is
+// published, no waiter is woken); a real change is stored, published exactly
+// once, and the channel that waiters fetched BEFORE the change is closed (and
+// forgotten), so every WaitForStateChange that read the old state is released.
+// WaitForStateChange fetches that channel before it reads the state.
+
+//@ import connectivity "google.golang.org/grpc/connectivity"
+
+//@ func (*connectivityStateManager).updateState
+//@   prop C30
+//@   opt atomic mu
+//@   requires csm != nil
+//@   assert at return 1 old(csm.state) == connectivity.Shutdown && csm.state == old(csm.state) && csm.notifyChan == old(csm.notifyChan) && ncalls("Publish") == 0 && ncalls("close") == 0
+//@   assert at return 2 old(csm.state) == state && csm.state == state && csm.notifyChan == old(csm.notifyChan) && ncalls("Publish") == 0 && ncalls("close") == 0
+//@   assert at call Publish#1 arg0 == csm.pubSub && arg1.(connectivity.State) == state && csm.state == state && old(csm.state) != state && old(csm.state) != connectivity.Shutdown
+//@   assert at call close#1 arg0 == old(csm.notifyChan) && arg0 != nil && ncalls("Publish") == 1
+//@   assert at return end csm.state == state && csm.notifyChan == nil && ncalls("Publish") == 1 && (ncalls("close") == 1) == (old(csm.notifyChan) != nil)
+
+//@ func (*connectivityStateManager).getState
+//@   prop C30
+//@   opt atomic mu
+//@   requires csm != nil
+//@   ensures result == csm.state && csm.state == old(csm.state)
+
+//@ func (*connectivityStateManager).getNotifyChan
+//@   prop C30
+//@   opt atomic mu
+//@   modifies csm.notifyChan
+//@   requires csm != nil
+//@   ensures result != nil && csm.notifyChan != nil && implies(old(csm.notifyChan) != nil, csm.notifyChan == old(csm.notifyChan)) && implies(old(csm.notifyChan) == nil, fresh(csm.notifyChan))
+
+//@ func (*ClientConn).WaitForStateChange
+//@   prop C30
+//@   requires cc != nil && cc.csMgr != nil
+//@   assert at call getState#1 ncalls("getNotifyChan") == 1 && arg0 == cc.csMgr
+//@   assert at call getNotifyChan#1 ncalls("getState") == 0 && arg0 == cc.csMgr
+//@   assert at return 1 result && lastret("getState") != Z(sourceState)
+
+// A subchannel's state change is forwarded to the balancer wrapper exactly when
+// the state really changed, with the new state and the error given.
+//@ func (*addrConn).updateConnectivityState
+//@   prop C30
+//@   requires ac != nil
+//@   assert at return 1 ac.state == s && ac.state == old(ac.state) && ncalls("updateState") == 0
+//@   assert at call updateState#1 arg1 == s && arg2 == lastErr
+//@   assert at call updateState#1 ac.state == s
+//@   assert at call updateState#1 old(ac.state) != old(s)
